@@ -620,7 +620,7 @@ def rank_inputs(recipe, r):
 
 FAULT_KINDS = ("drop-send", "drop-recv", "dup-send", "dup-recv", "retag-send",
                "retag-recv", "redirect-send", "redirect-recv", "self-send",
-               "self-recv", "close-cycle")
+               "self-recv", "self-loop", "close-cycle")
 
 
 def build_rank(recipe, r, npvals=None, faults=(), localise=False):
@@ -740,6 +740,14 @@ def build_rank(recipe, r, npvals=None, faults=(), localise=False):
             if "dup-send" in ks:
                 expr = pt.staple_distributed_send(
                     payload(ci) + 1, dst, tag_of(ci, "send"), stapled_to=expr)
+            if "self-loop" in ks:
+                # an additional, matched message from this rank to itself
+                data = payload(ci)
+                stag = mk_tag([c["tag"][0] if c["tag"][0] != "int" else "str",
+                               1000 + c["tag"][1]])
+                expr = pt.staple_distributed_send(data, r, stag, stapled_to=expr)
+                extra.append(pt.make_distributed_recv(r, stag, data.shape,
+                                                      data.dtype))
         return expr
 
     def get(i):
@@ -754,6 +762,12 @@ def build_rank(recipe, r, npvals=None, faults=(), localise=False):
         if o["rank"] != r:
             continue
         outs[o["name"]] = staple_all("out", oi, get(o["val"]))
+    if localise:
+        # the control graph must compile the same expressions the parts do:
+        # every payload becomes an output
+        for ci in livec:
+            if comms[ci]["src"] == r:
+                outs[f"lsend{ci}"] = get(comms[ci]["src_val"])
     if extra:
         # keep the duplicated receive reachable from the rank's first output
         k = sorted(outs)[0]
